@@ -392,8 +392,10 @@ def r20_6(F, R):
                     "fallback `state := prefix_fn[state-1]` on a mismatch is iterated — it sits on a cycle of its own (not the outer per-element loop) "
                     "whose condition re-tests the mismatch — both when the prefix function is built (Matcher::new) and when a text element is consumed "
                     "(Search::next); a single fallback step accepts wrong borders for patterns such as `aaab`")
-    for nm in (M + "::Matcher::new", M + "::Search::next"):
-        fn = _one(F, nm)
+    from .common import same_file_callees
+
+    def iterated_fallback(fn):
+        """(prefix_fn lookups, those that sit on an inner cycle whose condition re-tests the mismatch)"""
         flow = Flow(fn)
         outer = {bi for bi, t in fn.calls() if strip_generics(callee_name(t) or "").endswith("Iterator::next") or "::next" in strip_generics(callee_name(t) or "") and "iter" in strip_generics(callee_name(t) or "")}
         fallback = []
@@ -405,14 +407,22 @@ def r20_6(F, R):
                 if "prefix_fn" in names:
                     fallback.append(bi)
         cmpb = {bi for bi, t in fn.calls() if strip_generics(callee_name(t) or "").split("::")[-1] in ("ne", "eq")}
-        loc = "%s:%d" % (fn.file, fn.line)
-        inst = nm.replace(M + "::", "")
-        if not fallback:
-            raise AnchorError("R20.6: no prefix_fn lookup in %s" % nm)
         looping = [b for b in fallback if _in_cycle_avoiding(fn, b, outer)]
         with_test = [b for b in looping if any(_in_cycle_avoiding(fn, b, outer | {c}) is False for c in cmpb)]
-        if with_test:
-            R.ok("R20.6", inst, "fallback at bb%s iterated under a re-tested mismatch; %d prefix_fn lookups" % (with_test, len(fallback)), loc, how="cycle")
+        return fallback, with_test
+    for nm in (M + "::Matcher::new", M + "::Search::next"):
+        fn0 = _one(F, nm)
+        loc = "%s:%d" % (fn0.file, fn0.line)
+        inst = nm.replace(M + "::", "")
+        # the automaton step may live in a helper of the same file that both call (one level)
+        res = [(g, iterated_fallback(g)) for g in [fn0] + same_file_callees(F, fn0)]
+        if not any(fb for g, (fb, wt) in res):
+            raise AnchorError("R20.6: no prefix_fn lookup in %s or its helpers" % nm)
+        good = [(g, fb, wt) for g, (fb, wt) in res if wt]
+        if good:
+            g, fb, wt = good[0]
+            R.ok("R20.6", inst, "fallback at bb%s%s iterated under a re-tested mismatch; %d prefix_fn lookups" % (
+                wt, "" if g.id == fn0.id else " of the helper %s" % g.name, len(fb)), loc, how="cycle")
         else:
             R.violation("R20.6", inst, "%s falls back along the prefix function at most once per element (no inner loop around `prefix_fn[..]` that re-tests the "
                         "mismatch): borders of borders are skipped, so the matcher reports wrong positions for patterns with nested borders" % nm, loc)
@@ -425,17 +435,24 @@ def r20_8(F, R):
     R.rule("R20.8", "the streaming matcher's state moves only along the automaton: every assignment to the match length `q` in Search::next is `q + 1` "
                     "(one more element matched) or a value read out of the prefix function (a border of what was matched); a constant or any other "
                     "value — e.g. a `q = 0` shortcut on a mismatch — forgets the borders of the partial match and misses matches that start inside it")
-    fn = _one(F, M + "::Search::next")
-    D = Defs(fn)
+    from .common import same_file_callees
+    fn0 = _one(F, M + "::Search::next")
     n = 0
-    for bi, b in enumerate(fn.blocks):
+    work = [(fn0, False)] + [(g, True) for g in same_file_callees(F, fn0)]
+    for fn, is_helper in work:
+      D = Defs(fn)
+      for bi, b in enumerate(fn.blocks):
         if b.get("cleanup"):
             continue
         for st in b["s"]:
             if st["k"] != "=" or not st["lhs"]["p"]:
                 continue
             last = st["lhs"]["p"][-1]
-            if not (isinstance(last, dict) and last.get("n") == "q"):
+            if is_helper:
+                # the state handed to a helper by `&mut`: a store through a `&mut usize` parameter
+                if not (st["lhs"]["p"] == ["*"] and 1 <= st["lhs"]["l"] <= fn.argc and fn.local_ty(st["lhs"]["l"]) == "&mut usize"):
+                    continue
+            elif not (isinstance(last, dict) and last.get("n") == "q"):
                 continue
             n += 1
             from ..dataflow import rv_operands
